@@ -389,13 +389,16 @@ class Parser:
         return self.with_ns(False, go)
 
     def macro(self, name):
-        """`assert!(c, "msg")`, `panic!("msg")`, `vec![a, b]`, `vec![x; n]` - everything else is refused"""
+        """`assert!(c, "msg")`, `assert_eq!(a, b, "msg")`, `panic!("msg")`, `vec![a, b]`, `vec![x; n]` - everything else is refused"""
         self.next()                                  # `!`
-        if name in ("assert", "panic"):
+        if name in ("assert", "panic", "assert_eq"):
             self.expect("(")
             def go():
                 c = None
                 if name == "assert": c = self.expr()
+                if name == "assert_eq":                  # phase 4f: `assert_eq!(a, b, "msg")` = `assert!(a == b, "msg")` (operands evaluated left to right)
+                    l = self.expr(); self.expect(","); r = self.expr()
+                    return_eq = ("bin", "==", l, r)
                 # the message (string literals are not tokens of the subset): skip to the matching `)`
                 d = 1
                 while d > 0:
@@ -403,6 +406,7 @@ class Parser:
                     t = self.next()
                     if t == "(": d += 1
                     elif t == ")": d -= 1
+                if name == "assert_eq": return ("assert", return_eq)
                 return ("assert", c) if name == "assert" else ("panic",)
             return self.with_ns(False, go)
         if name == "vec":
@@ -941,7 +945,8 @@ class FnLower:
     # `&Vec<MultiplyU64ModOperand>`) are read-only lists: only `.len()` and (checked) indexing are accepted on them
     ABS_OBJ = {"List Nat": ("list", "list"), "Modulus": ("mod", "mod"), "List Modulus": ("modlist", "modlist"),
                "List MulOperand": ("moplist", "moplist")}
-    ABS_IDX = {"List Modulus": ("idxMod", "mod"), "List MulOperand": ("idxOp", ("struct", "MultiplyU64ModOperand")), "List Nat": ("idx", "u64")}
+    ABS_IDX = {"List Modulus": ("idxMod", "mod"), "List MulOperand": ("idxOp", ("struct", "MultiplyU64ModOperand")), "List Nat": ("idx", "u64"),
+               "List (List Nat)": ("idxRow", "list")}      # phase 4f: a `Vec<Vec<u64>>` field; `&m[i]` is a (read-only) row
 
     def abs_indexed(self, e, env, mark=True):
         """phase 4: an INDEXED abstraction - `<chain>[i]` / `<chain>.m(i)` where the table lists `<chain>[#]` / `<chain>.m(#)` as a list
@@ -1549,6 +1554,12 @@ class FnLower:
                 return Val(t, "list", [t])
         ab = self.abstracted(a2, env)
         if ab is not None and ab[1] is not None and ab[1][1] == "List Nat": return Val(ab[1][0], "list", [ab[1][0]])
+        ai = self.abs_indexed(a2, env)
+        if ai is not None and ai[0][1] == "List (List Nat)":          # phase 4f: a row of an abstracted `Vec<Vec<u64>>` (bounds-checked read)
+            (name, ty), ixe = ai
+            i = self.word(self.ex(ixe, env, ops), "index")
+            t = self.tmp(); ops.append(("bind", t, f"{self.ABS_IDX[ty][0]} {name} {i.atom}")); self.monadic_used = True
+            return Val(t, "list", [t])
         self.fail(f"{what}: slice argument")
 
     def mlist_arg(self, a, env, ops, what):
@@ -2090,6 +2101,11 @@ class FnLower2(FnLower):
                 if x not in cap_names: cap_names.append(x); cap_binders.append(f"({x} : {tyl})")
         for (bn, bt) in (self.abs_in([body[0], body[1]], env) if self.abs else []):
             if bn not in cap_names: cap_names.append(bn); cap_binders.append(f"({bn} : {bt})")
+        if self.abs and not self.loop_stack:
+            # phase 4f: the continuation of a top-level `for` is emitted inside it (at exhaustion): the abstracted inputs the REST of the
+            # function reads are captured too (before: an unbound identifier in the generated file, i.e. no such function was ever accepted)
+            for (bn, bt) in self.abs_in([list(stmts[i + 1:]), tail] if tail is not None else [list(stmts[i + 1:])], env):
+                if bn not in cap_names: cap_names.append(bn); cap_binders.append(f"({bn} : {bt})")
         if self.opts.get("alias_abstract"):
             # captured inputs in TABLE order after the ordinary locals (independent of the order of the `let`s that name them)
             order = {ent[0]: q for q, ent in enumerate(e for e in self.abs.values() if e is not None)}
@@ -3237,10 +3253,17 @@ TABLE_RNS = [
     {"file": UR, "fn": "mod_t_and_divide_q_last_ntt_inplace", "impl": "RNSTool", "model": "RNSTool.modTAndDivideQLastNtt", "nested_loops": True,
      "abstract": RNS_QB, "opaque": ["NTTTables"],
      "extern": [{"call": "polymod::intt", "tables": "rns_ntt_tables", "binder": "inttF"}, {"call": "polymod::ntt", "tables": "rns_ntt_tables", "binder": "nttF"}]},
+    {"file": UR, "fn": "fast_convert_array", "impl": "BaseConverter", "model": "BaseConverter.fastConvertArray", "nested_loops": True,
+     "abstract": [("self.ibase.len()", "ibaseSize", "Nat"), ("self.obase.len()", "obaseSize", "Nat"),
+                  ("self.ibase.inv_punctured_prod_mod_base()[#]", "invPunct", "List MulOperand"),
+                  ("self.ibase.base_at(#)", "ibase", "List Modulus"), ("self.obase.base_at(#)", "obase", "List Modulus"),
+                  ("self.base_change_matrix[#]", "matrix", "List (List Nat)")]},
 ]
 PRELUDE_RNS = """/-- bounds-checked reads of the list inputs that stand for `Vec<Modulus>` / `Vec<MultiplyU64ModOperand>` fields -/
 def idxMod (l : List Modulus) (i : Nat) : R Modulus := match l[i]? with | some x => .ok x | none => .error .oob
 def idxOp (l : List MulOperand) (i : Nat) : R MulOperand := match l[i]? with | some x => .ok x | none => .error .oob
+/-- bounds-checked read of a row of a `Vec<Vec<u64>>` field (`&self.base_change_matrix[i]`) -/
+def idxRow (l : List (List Nat)) (i : Nat) : R (List Nat) := match l[i]? with | some x => .ok x | none => .error .oob
 /-- `&s[a..b]`: panics unless `a <= b <= s.len()` -/
 def slice (l : List Nat) (a b : Nat) : R (List Nat) := if a ≤ b ∧ b ≤ l.length then .ok ((l.drop a).take (b - a)) else .error .oob
 /-- write a callee's result for `&mut s[a..]` back (the callee cannot change the length of the sub-slice) -/
